@@ -386,6 +386,14 @@ func (r *brun) incr(s, e uint64, fork *brun, forkAt int, rng *rand.Rand) {
 	}
 	for _, ov := range otherVersions(n, int(e)) {
 		addAlt(trace.Ev{"k": "end_other", "v": ov}, &back, sd, r.snaps[ov].s.HistoryDigest)
+		if ov != int(s) {
+			// both digests replaced by the same other version's digest
+			addAlt(trace.Ev{"k": "both_other", "v": ov}, &back, r.snaps[ov].s.HistoryDigest, r.snaps[ov].s.HistoryDigest)
+		}
+	}
+	if fork != nil && int(e) < len(fork.snaps) && forkAt <= int(s) {
+		// both digests taken from the forked log
+		addAlt(trace.Ev{"k": "both_fork", "at": forkAt}, &back, fork.snaps[s].s.HistoryDigest, fork.snaps[e].s.HistoryDigest)
 	}
 	if fork != nil && int(e) < len(fork.snaps) {
 		// the fork agrees with this log on versions < forkAt: only later digests differ
